@@ -13,9 +13,11 @@ ASSUMPTIONS = ["interruptions are raised inside socket calls (as the statement s
 NOT_COVERED = ["_fetch_cmd / get family (exchange function not yet mechanised)", "HashClient wrappers"]
 BUDGET = {"quick": 30, "thorough": 120}
 FILTER_BY_PROPERTY = True
+REPLAY_UNDECIDED = False
 
 
 def build(E, tier):
     cm.verify_misc_cmd(E, "C10", "async")
     cm.verify_store_cmd(E, "C10", "async", verbs=("set",), flag_kinds=("none", "int"))
     pm.verify_pooled_client(E, mode="async")
+    pm.verify_pool_async(E)
